@@ -3,47 +3,6 @@ package ergo
 // C14: every task's epic reference names a live epic.
 // C15: accepted plans can always make progress.
 
-// zzAssumeI2I3I4: epics have no epic/state/claim; tasks obey the six states and the claim
-// rule; a task's epic is "" or a live epic.
-func zzAssumeI234(g *Graph) {
-	for _, t := range g.Tasks {
-		if t.IsEpic {
-			zzAssume(t.EpicID == "" && t.State == "todo" && t.ClaimedBy == "")
-		} else {
-			zzAssume(zzSixStates(t.State) && zzClaimRule(t.State, t.ClaimedBy))
-			if t.EpicID != "" {
-				e := g.Tasks[t.EpicID]
-				zzAssume(e != nil && e.IsEpic)
-			}
-		}
-	}
-}
-
-func zzI4Holds(g *Graph) bool {
-	ok := true
-	for _, t := range g.Tasks {
-		if t.IsEpic {
-			if t.EpicID != "" {
-				ok = false
-			}
-			continue
-		}
-		if t.EpicID != "" {
-			e := g.Tasks[t.EpicID]
-			if e == nil || !e.IsEpic {
-				ok = false
-			}
-		}
-	}
-	return ok
-}
-
-func zzC14Store(spec string) *Graph {
-	g, _ := zzC07Store(spec)
-	zzAssumeI234(g)
-	return g
-}
-
 // `new task` with an epic argument, through the real createTask.
 func zzC14_NewTaskEpic() {
 	g := zzC14Store("3;Results=0;RDeps=0;Tombstones=1;Deps=0;constkeys=Tasks,Meta")
